@@ -391,10 +391,15 @@ impl<'a> FormatFields<'a> for JsonFields {
         // then, we could store fields as JSON values, and add to them
         // without having to parse and re-serialize.
         let mut new = String::new();
-        let map: BTreeMap<&'_ str, serde_json::Value> =
+        // The keys are parsed as owned strings: a field name that needs
+        // escaping in JSON cannot be borrowed from the serialized text.
+        let map: BTreeMap<String, serde_json::Value> =
             serde_json::from_str(current).map_err(|_| fmt::Error)?;
         let mut v = JsonVisitor::new(&mut new);
-        v.values = map;
+        v.values = map
+            .iter()
+            .map(|(key, value)| (key.as_str(), value.clone()))
+            .collect();
         fields.record(&mut v);
         v.finish()?;
         current.fields = new;
